@@ -274,6 +274,9 @@ type shapeSpec struct {
 	Scale  []float64  `json:"scale,omitempty"`  // non-uniform sdf.Scale3d applied last (the field then over/under-estimates distance)
 	Box    []float64  `json:"box,omitempty"`    // explicit sampled box min x,y,z max x,y,z (overrides Margin)
 	Centre []float64  `json:"centre,omitempty"` // translation applied to "box"
+	// sharp shapes (sharp.go): position of the apex and rotation about it (angles of RotateX . RotateZ . RotateY)
+	Apex []float64 `json:"apex,omitempty"`
+	Rot  []float64 `json:"rot,omitempty"`
 }
 
 func buildShape(sp shapeSpec) (sdf.SDF3, bool, error) {
@@ -356,7 +359,10 @@ func buildShape(sp shapeSpec) (sdf.SDF3, bool, error) {
 		s = sdf.ScaleExtrude3D(sdf.Box2D(v2.Vec{X: p(0, 2), Y: p(1, 1.2)}, 0.1), p(2, 2), v2.Vec{X: p(3, 0.3), Y: p(4, 0.4)})
 		exact = false
 	default:
-		return nil, false, fmt.Errorf("unknown shape %q", sp.Name)
+		var ok bool
+		if s, exact, ok, err = buildSharp(sp); !ok {
+			return nil, false, fmt.Errorf("unknown shape %q", sp.Name)
+		}
 	}
 	if err != nil {
 		return nil, false, err
@@ -807,6 +813,10 @@ func checkRender(r *Report, stratum string, rs renderSpec) {
 		}
 	}
 	r.Case("render/"+stratum, key, len(t1) > 0)
+	if rs.Renderer == "v2" {
+		// zero-area triangles with three distinct vertices (vertices of neighbouring cells clamped onto one lattice line)
+		r.Coverage["v2_render_triangles_collinear_distinct"] = addN(r.Coverage["v2_render_triangles_collinear_distinct"], zeroAreaDistinct(t1))
+	}
 	if r.Evaluations%17 == 3 {
 		r.Sample(map[string]interface{}{"kind": "render", "spec": rs, "triangles": len(t1), "cells": []int{lat.Cells.X, lat.Cells.Y, lat.Cells.Z}})
 	}
@@ -1176,6 +1186,7 @@ type corpus struct {
 	Renders []renderSpec `json:"renders"`
 	States  []stateSpec  `json:"states"`
 	Values  []valueSpec  `json:"values"`
+	Quads   []quadSpec   `json:"quads"`
 }
 
 func log2(n int) int {
@@ -1570,6 +1581,12 @@ func check(c *Ctx, r *Report) error {
 					return err
 				}
 				checkValue(r, "replay", vs)
+			case strings.HasPrefix(fi.Key, "v2quads:"):
+				var qs quadSpec
+				if err := json.Unmarshal(fi.Input, &qs); err != nil {
+					return err
+				}
+				checkQuads(r, rng, "replay", qs)
 			case strings.HasPrefix(fi.Key, "render:"):
 				var rs renderSpec
 				if err := json.Unmarshal(fi.Input, &rs); err != nil {
@@ -1766,6 +1783,44 @@ func check(c *Ctx, r *Report) error {
 		checkRender(r, "non-lipschitz/"+rs.Renderer+"/"+sp.Name, rs)
 	}
 
+	// ---- SHARP features (sharp.go): cone tips, spikes / pyramids from intersecting planes, wedges and thin fins,
+	// bipyramids, a concave notch; tip along an axis, at 45 degrees, slightly and fully tilted; apex on / near a
+	// lattice point, lattice edge, lattice face of the lattice the renderer samples; V2 over all knob settings
+	// (incl. CenterPush 0) and V1
+	nsh := TierN(c.Tier, 70, 700, 210)
+	for k := 0; k < nsh; k++ {
+		name := sharpNames[k%len(sharpNames)]
+		tilt := sharpTilts[(k/len(sharpNames))%len(sharpTilts)]
+		place := sharpPlacements[rng.Intn(len(sharpPlacements))]
+		renderer := "v2"
+		if k%3 == 2 {
+			renderer = "v1"
+		}
+		rs := sharpSettings(rng, renderer, knobs)
+		rs.Shape = genSharp(rng, name, tilt, place, rs)
+		checkRender(r, "sharp/"+renderer+"/"+name+"/"+tilt+"/"+place, rs)
+	}
+	// ---- triangle level: V2 generateTriangles on vertex buffers with collinear / coincident quad vertices
+	for _, qs := range cp.Quads {
+		checkQuads(r, rng, "corpus", qs)
+	}
+	nq := TierN(c.Tier, 60, 600, 200)
+	for k := 0; k < nq; k++ {
+		var n [3]int
+		switch k % 3 {
+		case 0:
+			n = [3]int{rng.Range(2, 3), rng.Range(2, 3), rng.Range(2, 3)}
+		case 1:
+			n = [3]int{rng.Range(3, 5), rng.Range(3, 5), rng.Range(3, 5)}
+		default:
+			n = [3]int{rng.Range(2, 7), rng.Range(2, 5), rng.Range(2, 4)}
+		}
+		gst := []string{"single-point", "sparse", "half", "dense", "full-interior", "checker", "boxes", "boundary-solid"}[rng.Intn(8)]
+		mode := quadModes[k%len(quadModes)]
+		sg := genGrid(rng, n, gst)
+		checkQuads(r, rng, mode+"/"+gst, quadSpec{Grid: sg, Pos: genQuadPos(rng, sg, mode)})
+	}
+
 	// grid-aligned NON-dyadic boxes: faces on lattice planes of the sampled volume to within rounding, so the field
 	// is ~1e-17 at whole planes of lattice corners and any inconsistency in how a corner is sampled shows
 	alignedBox := func(o [3]float64, h float64, n [3]int, lo, hi [3]int) shapeSpec {
@@ -1908,19 +1963,19 @@ func check(c *Ctx, r *Report) error {
 		checkValue(r, vs.R.Renderer+"/"+vs.Path, vs)
 	}
 
-	r.Rule = "grid cases: sign assignments on small lattices (V2: 1..7 cells per axis, V1: octree depth 1..3, 4 in the long tiers; V1 also on non-cubic volumes of 2/4/8 (16) cells per axis inside the cubic octree, compared with the model over the octree pruned by Populate's filter, one third of them with the sign lattice extended over the padding beyond the volume so that the filter stops nodes that are NOT dead and the pruned model has to drop the same triangles - outside the class, correspondence only) in strata empty / single solid point / sparse / half / dense / full interior / checkerboard / union of boxes (all with outside boundary) and boundary-solid (outside the class, correspondence only), realised by a trilinear lattice field and rendered by the real code; the triangle list in cell indices is compared, in order, with the Gallina model evaluated on the same grid; non-trivial = at least one triangle, distinct by (lattice size, sign bits). render cases: sphere, box, rotated box, rounded box, box minus sphere, cylinder minus cylinder, union of spheres, each in an asymmetrically enlarged box, 6..27 (40) cells, V1 (lock on, no simplification, three rcond values) and V2 (FarAway in {0.25,0.4,0.499999,0.5}, CenterPush in {0.01,0.1,1}); non-trivial = produced triangles, distinct by full parameter record. aligned strata: boxes and spheres with faces/poles on lattice planes, dyadic and NON-dyadic steps (0.15, 0.05, 0.07, any two-decimal step), centred and translated, 8/16/32 cells, cubic and 2:1:1 volumes; for these and every render case the index-space mesh from the hooks must be closed and all voxels sharing a lattice corner must agree on its sign. v2-nopush / v2-knobs: V2 with CenterPush = 0 (or 1e-6..5), FarAway 0.1..0.5 and five ray-cast knob settings on boxes, cylinders, L prisms, CSG; non-lipschitz: spheres, boxes, rotated boxes, cylinders scaled by 0.3..0.6 per axis (or one axis only), bars twisted 2.5..4.5 rad over height 2, extrusions tapered to 0.2..0.5, V1 and V2 - the |f(v)| <= diagonal oracle is waived there (f is no distance bound), every other oracle applies. Every render case: all lattice points are evaluated and the index triangles compared as a multiset with one oriented quad per sign-changing interior lattice edge (skipped when a lattice value is within 1e-12 of zero; counted in reference_compared/skipped). v2-solver: 1..9 planes with unit normals (generic, three planes, axis-parallel with zero rows/columns with and without push, rank 1, rank 2, singular three-plane systems, guard threshold diag(1,1,1e-12 +- 1ulp), times 1e60..1e200 and 1e-3..1e-160), result compared bit for bit with the float model and required to be a finite point or the +Inf refusal (moderate scales). state cases: ONE renderer value renders a non-uniformly scaled shape twice (sdf.Scale3d: the field over-estimates distance, the V2 ray cast fails and the warn-once flags get set; counted in state_cases_with_raycast_fallback) and then a plain shape, compared bit for bit with itself and with a fresh renderer; V1 and V2, all settings. value cases: ONE renderer value obtained along a construction path - V1: constructor / struct literal / zero value / zero value with fields assigned / constructor with other settings then fields assigned / copy by value / copy of a value that has rendered / a used value whose RCond is assigned afterwards (0 = back to the documented default); V2: constructor / NewDualContouringDefault / constructor then the six exported fields assigned / copy / copy of a used value / used value then fields assigned / literal and zero value (no cell count: may render nothing, what it emits must pass the mesh oracles) - with settings V1 RCond in {0, 1e-3, 0.1} x LockVertices on/off x Simplify off (one in six: 0 or 0.01), V2 FarAway x CenterPush x ray-cast knobs, renders 1..2 (path = constructor: 3..4, half of them coming back to the first) shapes that all have the SAME sampled box (spheres, rotated boxes, boxes, rounded boxes, CSG in one box of about 4.2 units, 12..20 cells; V1 also with the cell count varied per call), so that the sampling lattices of consecutive calls coincide point for point; every call is compared bit for bit with a fresh value made by the constructor with the same settings, and inside the class (V1 lock on, no simplification; V2 clamp 0..1/2) the fresh value rendering right after the other value sampled the same lattice must pass every mesh oracle (closed, volume > 0, vertices in the box, in a crossing cell, within a cell diagonal); outside the class (lock off, simplification on) only the comparison is made; counted in value_calls_compared / value_calls_in_class / value_calls_without_cell_count."
+	r.Rule = "grid cases: sign assignments on small lattices (V2: 1..7 cells per axis, V1: octree depth 1..3, 4 in the long tiers; V1 also on non-cubic volumes of 2/4/8 (16) cells per axis inside the cubic octree, compared with the model over the octree pruned by Populate's filter, one third of them with the sign lattice extended over the padding beyond the volume so that the filter stops nodes that are NOT dead and the pruned model has to drop the same triangles - outside the class, correspondence only) in strata empty / single solid point / sparse / half / dense / full interior / checkerboard / union of boxes (all with outside boundary) and boundary-solid (outside the class, correspondence only), realised by a trilinear lattice field and rendered by the real code; the triangle list in cell indices is compared, in order, with the Gallina model evaluated on the same grid; non-trivial = at least one triangle, distinct by (lattice size, sign bits). render cases: sphere, box, rotated box, rounded box, box minus sphere, cylinder minus cylinder, union of spheres, each in an asymmetrically enlarged box, 6..27 (40) cells, V1 (lock on, no simplification, three rcond values) and V2 (FarAway in {0.25,0.4,0.499999,0.5}, CenterPush in {0.01,0.1,1}); non-trivial = produced triangles, distinct by full parameter record. aligned strata: boxes and spheres with faces/poles on lattice planes, dyadic and NON-dyadic steps (0.15, 0.05, 0.07, any two-decimal step), centred and translated, 8/16/32 cells, cubic and 2:1:1 volumes; for these and every render case the index-space mesh from the hooks must be closed and all voxels sharing a lattice corner must agree on its sign. v2-nopush / v2-knobs: V2 with CenterPush = 0 (or 1e-6..5), FarAway 0.1..0.5 and five ray-cast knob settings on boxes, cylinders, L prisms, CSG; non-lipschitz: spheres, boxes, rotated boxes, cylinders scaled by 0.3..0.6 per axis (or one axis only), bars twisted 2.5..4.5 rad over height 2, extrusions tapered to 0.2..0.5, V1 and V2 - the |f(v)| <= diagonal oracle is waived there (f is no distance bound), every other oracle applies. Every render case: all lattice points are evaluated and the index triangles compared as a multiset with one oriented quad per sign-changing interior lattice edge (skipped when a lattice value is within 1e-12 of zero; counted in reference_compared/skipped). v2-solver: 1..9 planes with unit normals (generic, three planes, axis-parallel with zero rows/columns with and without push, rank 1, rank 2, singular three-plane systems, guard threshold diag(1,1,1e-12 +- 1ulp), times 1e60..1e200 and 1e-3..1e-160), result compared bit for bit with the float model and required to be a finite point or the +Inf refusal (moderate scales). state cases: ONE renderer value renders a non-uniformly scaled shape twice (sdf.Scale3d: the field over-estimates distance, the V2 ray cast fails and the warn-once flags get set; counted in state_cases_with_raycast_fallback) and then a plain shape, compared bit for bit with itself and with a fresh renderer; V1 and V2, all settings. value cases: ONE renderer value obtained along a construction path - V1: constructor / struct literal / zero value / zero value with fields assigned / constructor with other settings then fields assigned / copy by value / copy of a value that has rendered / a used value whose RCond is assigned afterwards (0 = back to the documented default); V2: constructor / NewDualContouringDefault / constructor then the six exported fields assigned / copy / copy of a used value / used value then fields assigned / literal and zero value (no cell count: may render nothing, what it emits must pass the mesh oracles) - with settings V1 RCond in {0, 1e-3, 0.1} x LockVertices on/off x Simplify off (one in six: 0 or 0.01), V2 FarAway x CenterPush x ray-cast knobs, renders 1..2 (path = constructor: 3..4, half of them coming back to the first) shapes that all have the SAME sampled box (spheres, rotated boxes, boxes, rounded boxes, CSG in one box of about 4.2 units, 12..20 cells; V1 also with the cell count varied per call), so that the sampling lattices of consecutive calls coincide point for point; every call is compared bit for bit with a fresh value made by the constructor with the same settings, and inside the class (V1 lock on, no simplification; V2 clamp 0..1/2) the fresh value rendering right after the other value sampled the same lattice must pass every mesh oracle (closed, volume > 0, vertices in the box, in a crossing cell, within a cell diagonal); outside the class (lock off, simplification on) only the comparison is made; counted in value_calls_compared / value_calls_in_class / value_calls_without_cell_count. sharp strata (sharp.go): library cone with top radius 0, spikes and pyramids (3..6 planes through one apex, half angle 0.15..pi/4), wedges and thin fins (two planes through a ridge, also with one face along the axis), bipyramids, a box with a concave pyramidal notch (the polytopes are max-of-planes fields: exact sign and zero set, a lower bound of the distance), each at least about three cells thick at its base; tip along a coordinate axis / rotated by multiples of 45 degrees / tilted by up to 0.08 rad / in general position; the apex placed ON a lattice point, lattice edge or lattice face of the lattice the renderer under test samples (asked from the renderer through the hooks), within 1e-12..0.02 cells of one, at a cell centre, or anywhere; V2 with FarAway in {0.1,0.25,0.4,0.499999,0.5} x CenterPush in {0,1e-6,0.01,0.1,1} x five ray-cast knob settings, V1 with three rcond values; 11..23 cells; every oracle of the render cases applies (v2_render_triangles_collinear_distinct counts the zero-area triangles with three distinct vertices seen in V2 output; corpus renders hold inputs that have them). v2-quads: sign grids of 2..7 cells per axis in the grid strata; the real generateTriangles is run (hook VerifV2TrianglesAt) on the vertex buffer of placeVertices with vertices moved - mode lines / lines-all: for half / all of the sign-changing interior lattice edges the vertices of the four surrounding cells are put on that edge at parameters from {0,1/4,1/2,3/4,1} (three or four quad vertices exactly collinear, some coincident), corners: every vertex on a corner of its cell, near-corners: the same moved inwards by 0 / 2^-40 / 2^-30 / 2^-20 per coordinate (nearly coincident, distinct vertices), mixed: kept / corner / point of a cell edge / dyadic interior point per cell, placed: nothing moved; the triangles sent must be the index triangles (VerifV2Buffers, the list the Coq model is compared with) in order, with positions substituted, except that exactly those with two identical vertices may be missing, and nothing else may be sent; on grids with outside boundary the triangles sent must be closed after identifying coincident vertices; non-trivial = some triangle with two identical or three collinear vertices (counted in v2_quads_triangles_*)."
 	r.Trusted = append(r.Trusted,
 		"hand model coq/Algo/DCModel.v of generateTriangles over the regenerated tables and code-embedded offsets, tied by differential execution on sign grids (cases_v2_*.v, exact order)",
 		"model of contourCellProc/FaceProc/EdgeProc/ProcessEdge (coq/Algo/DCModel.v): tied by translation - harness/dctab/proc.go translates the four Go functions from the AST of the current dc3v1.go (Generated/DCProc.v) and coq/Algo/DCProcEq.v proves them equal to the model for every octree, direction, buffer and fuel (C19_TRANSL_*); trusted there: the translator and the meaning of its constructs (coq/Algo/DCProcLib.v: ints as Z without overflow, arrays/slices as lists, no panics, recursion bounded by fuel), and the octree the model instantiates the code with (level/offset handles for the full-depth octree of Populate: a size-1 node is a Leaf iff its corner mask is mixed, else Internal with nil children) - that instantiation and Populate/computeOctreeLeaf are tied by differential execution (cases_v1_*.v, exact order)",
 		"float model of dcBoundVertexPosition (coq/Geo/DCVertex.v at Coq primitive floats) compared bit for bit through the hook (cases_bv_*.v); the V2 far-away clamp is inside placeVertex and only observed through the vertex oracle",
 		"float model of the V2 vertex solver determinant/solve3x3/leastSquares (coq/Geo/DCSolve.v) compared bit for bit through the hook (cases_ls_*.v)",
-		"hooks render/dc/verif_hooks_c19.go (V1: repeat the first lines of Render, then the real generateVertexIndices/contourCellProc; V2: real placeVertices/generateTriangles on a vertex buffer holding cell indices)",
+		"hooks render/dc/verif_hooks_c19.go (V1: repeat the first lines of Render, then the real generateVertexIndices/contourCellProc; V2: real placeVertices/generateTriangles on a vertex buffer holding cell indices, or positions chosen by the harness: VerifV2TrianglesAt)",
 		"QEF / SVD (gonum), ray cast and bisection are oracles: only the containment of their result is checked (direct oracle on every vertex) and proved for the lock/clamp step",
 		"Go oracles of this harness: directed-edge balance after identifying bit-equal vertices, signed volume, |f(v)| <= cell diagonal, vertex in a lattice cell with a sign change",
 		"value cases: the constructor called with the settings is taken as the definition of what a renderer value holding those settings does (RCond = 0 means the documented default for every construction path); independence of the construction path and of the history of the value is sampled, not proved")
 	r.Assumptions = append(r.Assumptions,
 		"the SDF is deterministic and outside (>= 0) on the boundary of the sampled box and beyond (V1 samples the padding of the power-of-two octree outside the box)",
-		"V2 drops the triangles of a quad that have two exactly equal vertices (Degenerate(0); since fix 97a592c only those - before, the whole quad, which left holes where two neighbouring vertices were clamped to the same lattice corner: corpus renders twist / scaled cylinder with CenterPush 0); a dropped degenerate triangle has a self loop and an edge with its own reverse, so the balance after identification is unchanged; the closedness theorem is about the index mesh, the position mesh is checked by the direct oracle on every render case",
+		"V2 drops the triangles of a quad that have two exactly equal vertices (Degenerate(0); since fix 97a592c only those - before, the whole quad, which left holes where two neighbouring vertices were clamped to the same lattice corner: corpus renders twist / scaled cylinder with CenterPush 0); a dropped degenerate triangle has a self loop and an edge with its own reverse, so the balance after identification is unchanged; the closedness theorem is about the index mesh, the position mesh is checked by the direct oracle on every render case and, at the triangle level, by the v2-quads cases (a triangle with three distinct vertices is needed even when its area is zero: at sharp apexes neighbouring vertices are clamped onto one lattice line)",
 		"V1 octree traversal: proved equal to the dual mesh for EVERY depth and every sign assignment on the full-depth cubic octree (v1_traversal), and unchanged, triangle by triangle, when the nodes stopped by Populate's out-of-volume filter are removed as long as the field is outside beyond the volume (C19_v1_prune, C19_v1_populate_filter_dead; the filter predicate populate_pruned is a hand copy of the Go condition, tied by differential execution incl. cases where it stops live nodes); the models are compared with the real code at depth 1..4; simplified octrees (Simplify >= 0) are outside the theorem and covered by the cell-exhaustive reference on every render case")
 	return nil
 }
